@@ -205,6 +205,26 @@ pub fn run_case(tape: &mut Tape, tier: Tier, p: &CaseParams) -> CaseOutcome {
   let mut world = crate::checks::worlds::gen_any_world(tape, &cfg);
   let deferred_shape =
     tape.draw(Stream::World, 5) == 4 && add_deferred_shape(tape, &mut world);
+  if !world.registry.packages.is_empty() && tape.draw(Stream::World, 6) == 5 {
+    // versions that differ only in build metadata have equal precedence:
+    // whichever is selected, it has to be the same one in every run
+    if let Some(pkg) = world.registry.packages.values_mut().next() {
+      let best = pkg
+        .versions
+        .keys()
+        .filter_map(|v| deno_semver::Version::parse_standard(v).ok().map(|p| (p, v.clone())))
+        .max_by(|a, b| a.0.cmp(&b.0))
+        .map(|x| x.1);
+      if let Some(v) = best.filter(|v| !v.contains('+')) {
+        let proto = pkg.versions[&v].clone();
+        for b in ["a", "b", "c"] {
+          pkg.versions.insert(format!("{}+{}", v, b), proto.clone());
+        }
+        out.count("probe.build_metadata_sibling_versions", 1);
+      }
+    }
+    world.render_registry(&crate::checks::worlds::embed_info);
+  }
   let mut sem = SemOpts::draw(tape);
   if deferred_shape {
     sem.unstable_text = true;
